@@ -40,6 +40,13 @@ Definition lydict_insert (d : dict) (s : bytes) : res (N * bytes * dict) :=
         (* LY_SUCCESS: match->value = copy of the string *)
         Ok (c, fst (r_val r), d1))).
 
+(* lydict_insert_zc() (dict.c:249-266) -> dict_insert(zerocopy = 1): the table effect and the answer are
+   those of lydict_insert (the record is compared and stored by value; strlen replaces the explicit
+   length).  Ownership of the caller's buffer, which the table model does not carry: it is always
+   consumed - free()d when the string is already present (LY_EEXIST inside), adopted as the stored
+   string otherwise (the driver checks returned pointer == buffer exactly in that case). *)
+Definition lydict_insert_zc (d : dict) (s : bytes) : res (N * bytes * dict) := lydict_insert d s.
+
 (* lydict_remove() (dict.c:122-175) *)
 Definition lydict_remove (d : dict) (s : bytes) : res (N * dict) :=
   let h := lyht_hash s in
@@ -66,7 +73,7 @@ Definition lydict_dup (d : dict) (s : bytes) : res (N * bytes * dict) :=
           Ok (LY_ERR_SUCCESS, fst (r_val r), d1)))
     end).
 
-Inductive dop := DIns (s : bytes) | DRem (s : bytes) | DDup (s : bytes).
+Inductive dop := DIns (s : bytes) | DRem (s : bytes) | DDup (s : bytes) | DInsZc (s : bytes).
 
 (* result of one operation: code and returned string (empty for remove) *)
 Definition dict_step (d : dict) (o : dop) : res (N * bytes * dict) :=
@@ -74,6 +81,7 @@ Definition dict_step (d : dict) (o : dop) : res (N * bytes * dict) :=
   | DIns s => lydict_insert d s
   | DRem s => bind (lydict_remove d s) (fun x => Ok (fst x, [], snd x))
   | DDup s => lydict_dup d s
+  | DInsZc s => lydict_insert_zc d s
   end.
 
 Fixpoint dict_run (d : dict) (ops : list dop) (acc : list (N * bytes))
